@@ -249,6 +249,69 @@ func c17prop(ev *evid.Rec) func(rt *rapid.T) {
 						checkFile("after kick")
 					}
 				},
+				"kickWhileLeaving": func(rt *rapid.T) {
+					// the kicked user hangs up by itself during the one-second grace of the disconnect request, and somebody else logs
+					// in during that same second: the delayed disconnect is about the user that was named, not about whoever is there now
+					var cand []int
+					for i, u := range users {
+						if u.acct != "u4" {
+							cand = append(cand, i)
+						}
+					}
+					var free []string
+					if len(cand) == 0 {
+						rt.Skip()
+					}
+					i := cand[rapid.IntRange(0, len(cand)-1).Draw(rt, "who")]
+					u := users[i]
+					opt := rapid.IntRange(0, 2).Draw(rt, "option")
+					for _, ip := range c17Addrs {
+						if !banned(ip) && (opt == 0 || ip != u.addr) {
+							free = append(free, ip)
+						}
+					}
+					if len(free) == 0 {
+						rt.Skip()
+					}
+					nip := rapid.SampledFrom(free).Draw(rt, "newcomerAddr")
+					rec("kick id %d (%s) option %d, who hangs up at once; newcomer from %s", u.id, u.addr, opt, nip)
+					fs := []hlref.Field{fld(hlref.FUserID, hlref.BE16(u.id))}
+					if opt != 0 {
+						fs = append(fs, fld(hlref.FOptions, hlref.BE16(opt)))
+					}
+					now := time.Now()
+					if !okReply(admin.Request(hlref.TranDisconnectUser, fs...)) {
+						fail("disconnect request refused")
+					}
+					switch opt {
+					case 1:
+						bans[u.addr] = banEntry{expiry: now.Add(30 * time.Minute)}
+					case 2:
+						bans[u.addr] = banEntry{perm: true}
+					}
+					u.conn.Close()
+					settle(100 * time.Millisecond)
+					users = append(users[:i], users[i+1:]...)
+					attempt(nip, fmt.Sprintf("u%d", rapid.IntRange(0, 3).Draw(rt, "acct")), "123")
+					nc := users[len(users)-1]
+					settle(1*time.Second + time.Millisecond)
+					if nc.conn.EOF() {
+						fail("user %d, who logged in while the kicked user %d was leaving, was disconnected", nc.id, u.id)
+					}
+					if !userIDs()[nc.id] {
+						fail("user %d, who logged in while the kicked user %d was leaving, is no longer in the user list", nc.id, u.id)
+					}
+					if !okReply(nc.conn.Request(hlref.TranGetUserNameList)) {
+						fail("user %d, who logged in while the kicked user %d was leaving, is no longer served", nc.id, u.id)
+					}
+					for _, o := range users {
+						o.conn.TakeInbox()
+					}
+					admin.TakeInbox()
+					if opt != 0 {
+						checkFile("after kick of a user who was leaving")
+					}
+				},
 				"advance": func(rt *rapid.T) {
 					d := rapid.SampledFrom([]time.Duration{time.Second, 29 * time.Minute, 29*time.Minute + 58*time.Second, time.Minute + time.Second, 2 * time.Hour, 999 * time.Millisecond}).Draw(rt, "delta")
 					rec("advance %s", d)
